@@ -131,9 +131,13 @@ def mixerOn (p : Player) (w : World) : Int × Player × World :=
 def mixerOff (p : Player) (w : World) : Player × World :=
   ({ p with buffer := none, buf32 := none }, (w.free p.buffer).free p.buf32)
 
-/-- libxmp_virt_on -/
+/-- libxmp_virt_on.  `maxvoc` / `virt_channels` are set before anything is allocated and stay set
+when the function fails: the per-voice / per-channel tables then have that many (unreadable)
+entries although `voice_array` / `xc_data` are NULL. -/
 def virtOn (pp : StartParams) (p : Player) (w : World) : Int × Player × World :=
-  let p := { p with maxvoc := pp.maxvoc, virtChannels := pp.virtch }
+  let p := { p with maxvoc := pp.maxvoc, virtChannels := pp.virtch,
+                    paula := List.replicate pp.maxvoc none,
+                    chanExtra := if pp.extras then List.replicate pp.virtch none else [] }
   match w.alloc ⟨.voiceArray, 0⟩ with
   | (none, w1) => (-1, { p with voiceArray := none }, w1)
   | (some va, w1) =>
@@ -143,10 +147,10 @@ def virtOn (pp : StartParams) (p : Player) (w : World) : Int × Player × World 
       | (some vc, w3) => (0, { p with voiceArray := some va, paula := r.1, virtChannel := some vc }, w3)
       | (none, w3) =>
         -- err2
-        (-1, { p with voiceArray := none, paula := [], virtChannel := none }, (freeAll r.1 w3).free (some va))
+        (-1, { p with voiceArray := none, virtChannel := none }, (freeAll r.1 w3).free (some va))
     else
       -- err2
-      (-1, { p with voiceArray := none, paula := [] }, (freeAll r.1 r.2.2).free (some va))
+      (-1, { p with voiceArray := none }, (freeAll r.1 r.2.2).free (some va))
 
 /-- libxmp_virt_off; walking `voice_array[i].paula` through a NULL `voice_array` is invalid -/
 def virtOff (p : Player) (w : World) : Player × World :=
@@ -201,33 +205,64 @@ def StartCfg.ofTables (sites : List (String × String × Bool))
 /-- the table of the code as it is now -/
 def startCfgNow : StartCfg := .ofTables Gen.StartCfg.startSites Gen.StartCfg.startLabels
 
-/-- what must have been released after a failure at each site -/
-def Site.required : Site → List Action
-  | .mixerOn => []
-  | .virtOn => [.mixerOff]
-  | .flowLoop => [.virtOff, .mixerOff]
-  | .xcData => [.flowLoop, .virtOff, .mixerOff]
-  | .chanExtras => [.chanExtras, .xcData, .flowLoop, .virtOff, .mixerOff]
-
 def allSites : List Site := [.mixerOn, .virtOn, .flowLoop, .xcData, .chanExtras]
 
-/-- decidable soundness of an unwinding table: every failure site releases everything acquired
-before it (in an order that releases the channel extras before `xc_data`), nothing unknown, and
-returns a negative code -/
-def StartCfg.Sound (cfg : StartCfg) : Bool :=
-  allSites.all fun s =>
-    cfg.retNeg s
-    && (cfg.cleanup s).all (· ≠ .unknown)
-    && s.required.all (fun a => (cfg.cleanup s).count a = 1)
-    && (cfg.cleanup s).all (fun a => a ∈ s.required || a = .flowLoop || a = .xcData || a = .chanExtras)
-    && ((cfg.cleanup s).dropWhile (· ≠ .xcData)).all (· ≠ .chanExtras)
+/-- abstract state of the unwinding: which resource groups are still held, and whether the two
+tables that the release loops walk may be dereferenced (`voice_array[i]`, `xc_data[i]`) -/
+structure Abs where
+  mixer : Bool := false
+  virt : Bool := false
+  flow : Bool := false
+  xc : Bool := false
+  extras : Bool := false
+  vaOk : Bool := true     -- voice_array != NULL or no voices to walk
+  xcOk : Bool := true     -- xc_data != NULL or no channel extras to walk
+  deriving DecidableEq, Repr
+
+/-- the abstract state in which the failure branch of each site is entered -/
+def Site.entry : Site → Abs
+  | .mixerOn => {}
+  | .virtOn => { mixer := true, vaOk := false, xcOk := false }
+  | .flowLoop => { mixer := true, virt := true, xcOk := false }
+  | .xcData => { mixer := true, virt := true, flow := true, xcOk := false }
+  | .chanExtras => { mixer := true, virt := true, flow := true, xc := true, extras := true }
+
+/-- one release action on the abstract state; `none` = the action is unsafe there (walks a NULL
+table, drops blocks that are still owned, or is not understood) -/
+def absStep (a : Action) (s : Abs) : Option Abs :=
+  match a with
+  | .mixerOff => some { s with mixer := false }
+  | .virtOff => if s.vaOk then some { s with virt := false, vaOk := true } else none
+  | .flowLoop => some { s with flow := false }
+  | .xcData => if s.extras then none else some { s with xc := false, xcOk := true }
+  | .chanExtras => if s.xcOk then some { s with extras := false } else none
+  | .unknown => none
+
+def absRun : List Action → Abs → Option Abs
+  | [], s => some s
+  | a :: as, s => match absStep a s with
+    | some s' => absRun as s'
+    | none => none
+
+def Abs.released (s : Abs) : Bool := !s.mixer && !s.virt && !s.flow && !s.xc && !s.extras
+
+/-- decidable soundness of an unwinding table: from every failure site the label blocks release
+every group that is held, never walk a NULL table, and the function returns a negative code -/
+def StartCfg.soundAt (cfg : StartCfg) (s : Site) : Bool :=
+  cfg.retNeg s && match absRun (cfg.cleanup s) s.entry with
+    | some f => f.released
+    | none => false
+
+def StartCfg.Sound (cfg : StartCfg) : Bool := allSites.all cfg.soundAt
 
 def doAction (a : Action) (p : Player) (w : World) : Player × World :=
   match a with
   | .chanExtras =>
     -- for (i < virt_channels) libxmp_release_channel_extras(&p->xc_data[i]); reads p->xc_data
-    let w := if p.xcData.isNone ∧ p.chanExtra ≠ [] then { w with bad := w.bad + 1 } else w
-    (p, freeAll p.chanExtra w)      -- pointers are not reset (xc_data is freed next)
+    let w' := if p.xcData.isNone ∧ p.chanExtra ≠ [] then { w with bad := w.bad + 1 } else w
+    -- the C leaves xc_data[i].extra dangling until xc_data is freed; running this block twice is
+    -- excluded by `Sound`, so the entries are modelled as reset
+    ({ p with chanExtra := p.chanExtra.map fun _ => none }, freeAll p.chanExtra w')
   | .xcData => ({ p with xcData := none, chanExtra := [] }, w.free p.xcData)
   | .flowLoop => ({ p with flowLoop := none }, w.free p.flowLoop)
   | .virtOff => virtOff p w
@@ -287,7 +322,7 @@ def startPlayer (cfg : StartCfg) (pp : StartParams) (rateOk : Bool) (c : Ctx) (w
         match w.alloc ⟨.xcData, 0⟩ with
         | (none, w) => startFail cfg .xcData errSystem c { p with xcData := none } w
         | (some xc, w) =>
-          let p := { p with xcData := some xc, chanExtra := List.replicate pp.virtch none }
+          let p := { p with xcData := some xc }
           let r := if pp.extras then allocLoop .chanExtra pp.virtch 0 w
                    else (List.replicate pp.virtch none, true, w)
           let p := { p with chanExtra := r.1 }
